@@ -16,10 +16,13 @@ theorem InvK.fireTimeout {db : DB} (ha : InvA db) (hk : InvK db) (hid : Nat) (hn
     have hd0 : (db.getR hid).depth = 0 := by omega
     have h1 := h0.modR (fun r => { r with queued := false }) (by intro _; rfl)
     have hkr := hk.recs _ (findR_some_mem hpr).1
-    dsimp only
-    split
-    · exact ((h1.modKey (db.getR hid).cmd.key (fun k => { k with waited := false })).ctrMod _).finishD ⟨hkr.1, by intro h; simp only [] at h; omega⟩ hd0
-    · exact (h1.ctrMod _).finishD ⟨hkr.1, by intro h; simp only [] at h; omega⟩ hd0
+    have hdw : InvK (db.dropWaiter hid) := by
+      unfold DB.dropWaiter
+      simp only []
+      split
+      · exact ((h1.modKey (db.getR hid).cmd.key (fun k => { k with waited := false })).ctrMod _).finishD ⟨hkr.1, by intro h; simp only [] at h; omega⟩ hd0
+      · exact (h1.ctrMod _).finishD ⟨hkr.1, by intro h; simp only [] at h; omega⟩ hd0
+    exact InvK.wake (ha.dropWaiter hid) hdw _ _
 
 theorem InvK.fireExpire {db : DB} (ha : InvA db) (hk : InvK db) (hid : Nat) (hne : (db.getR hid).expried = false) : InvK (fireExpire db hid).1 := by
   have hpr := present_of (Or.inr (Or.inr (Or.inr (Or.inl hne))))
